@@ -319,6 +319,8 @@ pub trait Sender {
     fn set_seq(&mut self, v: u64);
     fn seq_state(&self) -> (u64, bool);
     fn teardown_scan(self: Box<Self>, pats: &[Vec<u8>]) -> Res<Scan>;
+    /// offsets at which each pattern occurs in the live context right now (nothing is dropped)
+    fn peek(&self, pats: &[Vec<u8>]) -> Vec<Vec<usize>>;
     /// drops the context while the current thread is unwinding from a panic
     fn drop_unwinding(self: Box<Self>);
 }
@@ -330,6 +332,8 @@ pub trait Receiver {
     fn set_seq(&mut self, v: u64);
     fn seq_state(&self) -> (u64, bool);
     fn teardown_scan(self: Box<Self>, pats: &[Vec<u8>]) -> Res<Scan>;
+    /// offsets at which each pattern occurs in the live context right now (nothing is dropped)
+    fn peek(&self, pats: &[Vec<u8>]) -> Vec<Vec<usize>>;
     /// drops the context while the current thread is unwinding from a panic
     fn drop_unwinding(self: Box<Self>);
 }
@@ -367,6 +371,22 @@ pub trait Suite: Sync {
 
 /// Moves `v` into a slot owned by the harness, scans the slot for the patterns, runs the value's
 /// destructor in place, and scans the same memory again (volatile reads).
+/// Offsets (relative to the start of the value) at which each pattern occurs in a live value
+pub fn peek_live<T>(v: &T, pats: &[Vec<u8>]) -> Vec<Vec<usize>> {
+    let n = std::mem::size_of::<T>();
+    let p = v as *const T as *const u8;
+    let bytes: Vec<u8> = (0..n).map(|i| unsafe { std::ptr::read_volatile(p.add(i)) }).collect();
+    pats.iter()
+        .map(|q| {
+            if q.is_empty() || bytes.len() < q.len() {
+                vec![]
+            } else {
+                (0..bytes.len() - q.len() + 1).filter(|i| &bytes[*i..*i + q.len()] == &q[..]).collect()
+            }
+        })
+        .collect()
+}
+
 pub fn scan_drop<T>(v: T, pats: &[Vec<u8>]) -> Res<Scan> {
     // The slot starts at a byte offset 0..7 from a 16-byte aligned address (as far as T's own
     // alignment allows; byte arrays such as a shared secret can sit anywhere, e.g. behind a one-byte
@@ -506,6 +526,9 @@ impl<A: Aead + 'static, K: Kdf + 'static, M: Kem + 'static> Sender for SCtx<A, K
     fn teardown_scan(self: Box<Self>, pats: &[Vec<u8>]) -> Res<Scan> {
         scan_drop::<AeadCtxS<A, K, M>>(self.0, pats)
     }
+    fn peek(&self, pats: &[Vec<u8>]) -> Vec<Vec<usize>> {
+        peek_live(&self.0, pats)
+    }
     fn drop_unwinding(self: Box<Self>) {
         let ctx = self.0;
         let _ = guard(move || {
@@ -552,6 +575,9 @@ impl<A: Aead + 'static, K: Kdf + 'static, M: Kem + 'static> Receiver for RCtx<A,
     }
     fn teardown_scan(self: Box<Self>, pats: &[Vec<u8>]) -> Res<Scan> {
         scan_drop::<AeadCtxR<A, K, M>>(self.0, pats)
+    }
+    fn peek(&self, pats: &[Vec<u8>]) -> Vec<Vec<usize>> {
+        peek_live(&self.0, pats)
     }
     fn drop_unwinding(self: Box<Self>) {
         let ctx = self.0;
